@@ -25,6 +25,11 @@ POOL_LIT = ['0', '1', '-1', '2147483648', '0x7fffffffffffffff', '184467440737095
             '4294967296', '99999999999999999999999', '\\', '@', '`', '$', '\x7f']
 
 SNIPPETS = r'''
+void f(int[3]) {}
+int sum(int [4], int n) { return n; }
+int g(int (*)[3], char *[], int [static 2], int [*]) { return 0; }
+int h(int a[], int [], struct S *) { return 0; }
+void k(void (int), int (void)) {}
 int table[4] = {[1 ... 4] = 7};
 int table[4] = {[1 ... 3] = 7, [0 ... 0] = 1, [3 ... 4] = 2};
 int table[4] = {[4 ... 4] = 7};
@@ -652,6 +657,24 @@ def run(ctx):
         optcases.append(('optfix3', 'int q;\n', ['-U' + b]))
     optcases.append(('optinc', 'int q;\n', ['-include', '/nonexistent.h']))
     optcases.append(('optinc2', 'int q;\n', ['-include', 'stddef.h', '-include', 'stddef.h']))
+    # -include of files without any token (empty, comment only, white space only), alone and between others
+    for i, body in enumerate(['', '/* only a comment */\n', '\n\n   \n', '// x', '#if 0\nint z;\n#endif\n', '#define NOTHING\n']):
+        ip = os.path.join(work, 'inc_empty%d.h' % i)
+        open(ip, 'w').write(body)
+        optcases.append(('optinc-empty%d' % i, 'int q = 1;\n', ['-include', ip]))
+        optcases.append(('optinc-empty%db' % i, 'int q = 1;\n', ['-include', 'stddef.h', '-include', ip, '-include', ip]))
+        optcases.append(('optinc-empty%dc' % i, '', ['-include', ip]))
+    # table stress: many distinct names defined and undefined again, many live macros, objects, tags and labels in one scope
+    stress = [('stress-define-undef', ''.join('#define SX_%d %d\n#undef SX_%d\n' % (i, i, i) for i in range(3000)) + '#ifdef SX_7\n#error no\n#endif\nint sx = 1;\n'),
+              ('stress-live-macros', ''.join('#define SL_%d (SL_%d + 1)\n' % (i + 1, i) for i in range(1, 1500)) + '#define SL_1 1\nint sl = SL_40;\n'),
+              ('stress-objects', ''.join('int so_%d = %d;\n' % (i, i) for i in range(3000)) + 'int sum(void) { return so_17 + so_2999; }\n'),
+              ('stress-tags', ''.join('struct ST_%d { int a; struct ST_%d *p; };\n' % (i, max(i - 1, 0)) for i in range(1500)) + 'struct ST_1499 st;\n'),
+              ('stress-locals', 'int f(void) {\n' + ''.join('  int l_%d = %d; { int l_%d = l_%d + 1; (void)l_%d; }\n' % (i, i, i + 5000, i, i + 5000) for i in range(1200)) + '  return l_3;\n}\n'),
+              ('stress-labels', 'int f(int c) {\n' + ''.join('  L%d: if (c == %d) goto L%d;\n' % (i, i, (i * 7) % 800) for i in range(800)) + '  return c;\n}\n'),
+              ('stress-enum', 'enum E {' + ', '.join('EC_%d' % i for i in range(4000)) + '};\nint e = EC_3999;\n'),
+              ('stress-typedefs', ''.join('typedef int TD_%d;\n' % i for i in range(2000)) + 'TD_1999 t;\n')]
+    for nm, text in stress:
+        optcases.append((nm, text, []))
 
     # system headers: real-world declarations (attributes, inline functions, bit-fields, unions, variadics, redeclared builtins)
     syscases = []
